@@ -431,7 +431,7 @@ func (db *LeveldbPermanent) mergeTempDatabaseFromLeveldb(ctx context.Context, te
 		temp.policy,
 	)
 
-	db.basePermanent.mergeTempCaches(temp.stcache, temp.instateoperationcache)
+	db.basePermanent.mergeTempCaches(temp.Height(), temp.stcache, temp.instateoperationcache)
 
 	// NOTE purge old items from stcache
 	if err := temp.iterStateKeys(func(stateKey string) (bool, error) {
